@@ -247,6 +247,26 @@ def kept_validator(ctx):
                              {'scenario': 'kept_validator', 'registry': kind, 'change': change, 'entry': how})
 
 
+def hash_twins(v):
+    nums = set()
+
+    def walk(x):
+        if isinstance(x, (int, float)) and not isinstance(x, bool):
+            nums.add(x)
+        elif isinstance(x, dict):
+            for k, y in x.items():
+                walk(k)
+                walk(y)
+        elif isinstance(x, (list, tuple, set, frozenset)):
+            for y in x:
+                walk(y)
+    walk(v)
+    hs = {}
+    for x in nums:
+        hs.setdefault(hash(x), set()).add(x)
+    return any(len(xs) > 1 for xs in hs.values())
+
+
 def variants(rng, m):
     """mappings that may or may not share the cache key with `m`"""
     out = [('same', copy.deepcopy(m))]
@@ -324,6 +344,12 @@ def run(ctx, n):
                 m = g.rules(1)
                 try:
                     for name, var in variants(rng, m):
+                        if hash_twins(m) or hash_twins(var):
+                            # distinct numbers with one Python hash (hash(-1) == hash(-2)) inside one mapping: the key of
+                            # the code is a function of CPython's set-hash arithmetic then (finding F13b names the class);
+                            # the model's key does not follow it there
+                            ctx.dist('hkey_skipped', 'numbers with equal hashes')
+                            continue
                         realeq = mapping_hash(m) == mapping_hash(var)
                         rep = drv.ask({'port': 'hkey', 'a': codec.enc_val(m), 'b': codec.enc_val(var)})
                         ctx.dist('hkey_' + ('equal' if realeq else 'different'), name)
